@@ -125,7 +125,8 @@ against each of them: 31 check runs, no VIOLATION line anywhere, 29 exit 0 (`ben
 runs that did not exit 0 were the C04 check reporting an inconclusive solver answer in `C04_header_authenticated`
 while three heavy jobs shared the machine — unrelated to the refactoring (one of the two patches does not touch
 record code); that harness was made about five times cheaper afterwards, unknown answers are now asked a second
-time with a longer timeout (section 12), and both runs were repeated: exit 0 (`benign/bencheck-run2.log`).
+time with a longer timeout (section 12), and both runs were repeated: exit 0 (`benign/bencheck-run2.log`).  After
+the last harness additions all 31 runs were repeated on the final checks: 31 exit 0 (`benign/bencheck-run3.log`).
 
 '''
 d = d[:start] + intro.replace('SUMMARY', summary).replace('TABLE', '\n'.join(tab)) + d[end:]
